@@ -584,6 +584,8 @@ class Exec(Sem):
     def is_identical(self, a, b, st):
         S = self.cx.sorts
         if isinstance(a, PyV) or isinstance(b, PyV):
+            if isinstance(a, PyV) and isinstance(b, PyV) and "typeof" in (a.kind, b.kind):
+                return self.py_eq(a, b, st)          # type(x) is int: classes are singletons
             raise Unsupported("`is` on python-level values")
         if b.ty == T.NONE or a.ty == T.NONE:
             o = a if b.ty == T.NONE else b
